@@ -5,6 +5,8 @@ import PyPhysim.Proofs.C18Ops
 import PyPhysim.Proofs.C18Ls
 import PyPhysim.Proofs.C18Prime
 import PyPhysim.Proofs.C18Seq
+import PyPhysim.Proofs.C18Close
+import PyPhysim.Proofs.C18Buf
 import PyPhysim.Generated.PrimeTable
 import PyPhysim.Generated.C18RootTables
 
@@ -480,6 +482,124 @@ theorem cell_users_order_independent (norm : List ℂ → ℂ) (c : Cell ℂ) (s
     (Cell.run norm c sps).1.users.Perm (Cell.run norm c sps').1.users :=
   run_users_perm norm c sps sps' h
 
+/-! ## Distinct values that are merely close (robustness class R15)
+
+The model is a function of the **exact** values: no comparison with a tolerance,
+no rounded key, no absolute threshold.  Stated where the model compares / looks up
+(prime table) and, for the numeric part, as separation: inputs that differ — by
+however little — give different results. -/
+
+/-- R15, prime selection: two sizes get the same base length **iff** no prime lies
+    between them — adjacent sizes `p - 1`, `p` around a prime are never identified,
+    sizes between two consecutive primes always are. -/
+theorem prime_lookup_exact (s s' : ℕ) (h2 : 2 ≤ s) (hss : s ≤ s') (hs : s' ≤ 1200) :
+    primeLookup smallPrimeList s = primeLookup smallPrimeList s' ↔
+      ∀ q, Nat.Prime q → s < q → ¬ q ≤ s' := by
+  obtain ⟨p, hp, hpp, hps, hpmax⟩ := prime_lookup_correct s h2 (by omega)
+  obtain ⟨p', hp', hpp', hps', hpmax'⟩ := prime_lookup_correct s' (by omega) hs
+  rw [hp, hp']
+  constructor
+  · intro h q hq hsq hqs'
+    have hpe : p = p' := by injection h
+    have := hpmax' q hq hqs'
+    omega
+  · intro h
+    have h1 : p' ≤ s := by
+      by_contra hc
+      exact h p' hpp' (by omega) hps'
+    have h3 := hpmax p' hpp' h1
+    have h4 := hpmax' p hpp (by omega)
+    have : p = p' := by omega
+    rw [this]
+
+/-- R15, prime selection at a prime: the size `p` itself selects `p`, the size just
+    below selects a smaller prime. -/
+theorem prime_lookup_at_prime (p : ℕ) (hp : Nat.Prime p) (hs : p ≤ 1200) :
+    primeLookup smallPrimeList p = .ok p ∧
+      (3 ≤ p → ∃ q, primeLookup smallPrimeList (p - 1) = .ok q ∧ q < p) := by
+  obtain ⟨q, hq, _, hqp, hmax⟩ := prime_lookup_correct p hp.two_le hs
+  have h1 := hmax p hp (Nat.le_refl p)
+  have hqe : q = p := by omega
+  refine ⟨by rw [hq, hqe], fun h3 => ?_⟩
+  obtain ⟨q', hq', _, hq's, _⟩ := prime_lookup_correct (p - 1) (by omega) (by omega)
+  exact ⟨q', hq', by omega⟩
+
+/-- R15, estimators: two channels that fit the kept taps and differ in **one tap by any
+    amount** (1e-6 relative, one unit in the last place, 1e-15 absolute …) are given
+    different estimates by the same estimator object — nothing is identified, cached by
+    rounded value or thresholded to zero. -/
+theorem cazac_estimate_separates (ph : List ℚ) (nrm : Bool) (nu : ℂ) (h1 h2 : List ℂ) (m K : ℕ)
+    (hm : 0 < m) (hN : 0 < ph.length)
+    (hnu : nrm = true → (starRingEnd ℂ) nu = nu ∧ nu * nu = (ph.length : ℂ))
+    (hfit1 : h1.length ≤ K + 1) (hlen1 : h1.length ≤ ph.length)
+    (hfit2 : h2.length ≤ K + 1) (hlen2 : h2.length ≤ ph.length)
+    (k : ℕ) (hne : h1.getD k 0 ≠ h2.getD k 0) :
+    estimate1 (rowOf (seqValues ph : List ℂ) nrm nu) nrm m
+        (observe (fftPad h1 (m * ph.length)) m (rowOf (seqValues ph : List ℂ) nrm nu)) K
+      ≠ estimate1 (rowOf (seqValues ph : List ℂ) nrm nu) nrm m
+        (observe (fftPad h2 (m * ph.length)) m (rowOf (seqValues ph : List ℂ) nrm nu)) K :=
+  ue_estimate_separates cisLaws_complex ph nrm nu h1 h2 m K hm hN hnu hfit1 hlen1 hfit2 hlen2 k hne
+
+/-- R15, least squares: channel matrices that differ in any entry by any amount get
+    different estimates (pilot matrix of full row rank: nearly parallel pilot rows and
+    a Gram matrix that is *nearly* a multiple of the identity included). -/
+theorem ls_separates {nr nt np : ℕ} (inv : Mat ℂ nt nt → Mat ℂ nt nt) (H1 H2 : Mat ℂ nr nt)
+    (S : Mat ℂ nt np)
+    (hcontract : ∀ A : Mat ℂ nt nt, IsUnit (Matrix.of A) → Matrix.of A * Matrix.of (inv A) = 1)
+    (hrank : LinearIndependent ℂ (Matrix.of S).row) (hne : H1 ≠ H2) :
+    lsEstimate inv (matMul H1 S) S ≠ lsEstimate inv (matMul H2 S) S := by
+  apply ls_separates_core inv H1 H2 S _ hne
+  apply hcontract
+  rw [of_matMul, of_conjT]
+  exact gram_isUnit_of_full_row_rank (Matrix.of S) hrank
+
+/-! ## One argument array refilled in place; one array in two roles (robustness class R16) -/
+
+/-- R16: a caller keeps ONE array, refills it in place and calls the same object /
+    function again (any history of refills and calls, any callee `f` of the model:
+    `estimate1 r nrm m`, `estimateRows`, `estimateOcc1 ue`, `lsEstimate`, `extendedZF`,
+    `shiftedPhases` …).  The results are, call by call, those of fresh calls on copies of
+    the contents at call time. -/
+theorem buffer_history_eq_fresh_calls {β κ ρ : Type} (f : β → κ → ρ) (b : β) (ops : List (BufOp β κ)) :
+    (BufState.run f ⟨b, []⟩ ops).outs = (callSnapshots b ops).map (fun p => f p.1 p.2) := by
+  rw [run_outs f ops b []]
+  rfl
+
+/-- R16: results that were returned are not changed by later refills and calls. -/
+theorem buffer_earlier_results_kept {β κ ρ : Type} (f : β → κ → ρ) (s : BufState β ρ)
+    (ops more : List (BufOp β κ)) :
+    ∃ l, (BufState.run f s (ops ++ more)).outs = (BufState.run f s ops).outs ++ l := by
+  rw [run_append]
+  exact run_outs_prefix f _ more
+
+/-- R16: handing over an equal-content array (a refill with the contents the buffer
+    already has) changes nothing. -/
+theorem buffer_equal_content_refill {β κ ρ : Type} (f : β → κ → ρ) (s : BufState β ρ)
+    (ops : List (BufOp β κ)) :
+    BufState.run f s (.refill s.buf :: ops) = BufState.run f s ops :=
+  run_refill_same f s ops
+
+/-- R16, one array object in two roles: an estimator built from a raw reference array of
+    unit modulus that is handed **the same array** as observation returns the flat
+    response of the one-tap channel `[1]` (all ones), whatever `K` and the comb factor. -/
+theorem estimate_same_array_two_roles (r : List ℂ) (m K : ℕ) (hm : 0 < m) (hN : 0 < r.length)
+    (hr : ∀ n, n < r.length → r.getD n 0 * (starRingEnd ℂ) (r.getD n 0) = 1) :
+    estimate1 r false m r K = .ok (fftPad [(1 : ℂ)] (m * r.length)) ∧
+      ∀ f, f < m * r.length → (fftPad [(1 : ℂ)] (m * r.length)).getD f 0 = 1 :=
+  ⟨estimate_self_observation cisLaws_complex r m K hm hN hr,
+    fun f hf => fftPad_one_getD cisLaws_complex _ f hf⟩
+
+/-- R16, one array object in two roles: `compute_ls_estimation(A, A)` is the identity for
+    every `A` of full row rank. -/
+theorem ls_same_array {n k : ℕ} (inv : Mat ℂ n n → Mat ℂ n n) (S : Mat ℂ n k)
+    (hcontract : ∀ A : Mat ℂ n n, IsUnit (Matrix.of A) → Matrix.of A * Matrix.of (inv A) = 1)
+    (hrank : LinearIndependent ℂ (Matrix.of S).row) :
+    lsEstimate inv S S = idMat ℂ n := by
+  apply ls_same_array_core inv S
+  apply hcontract
+  rw [of_matMul, of_conjT]
+  exact gram_isUnit_of_full_row_rank (Matrix.of S) hrank
+
 /-! ## Non-vacuity -/
 
 /-- hypotheses of the CAZAC clauses are satisfiable (N = 5, u = 2, τ = 3) -/
@@ -499,5 +619,24 @@ example : ∃ p1 p2, shiftedPhases (zcPhases 24 1) 1 8 = .ok p1 ∧ shiftedPhase
 /-- a full-row-rank pilot matrix exists (the 2×2 identity) -/
 example : LinearIndependent ℂ (1 : Matrix (Fin 2) (Fin 2) ℂ).row :=
   Matrix.linearIndependent_rows_iff_isUnit.mpr isUnit_one
+
+/-- R15: two channels that are close but distinct exist (taps `1` and `1 + 10⁻⁶`) -/
+example : ([(1 : ℂ)] : List ℂ).getD 0 0 ≠ ([(1 : ℂ) + 1 / 1000000] : List ℂ).getD 0 0 := by
+  simp
+
+/-- R15: 1193 and 1200 select the same prime (no prime in between), 1192 and 1193 do not -/
+example : primeLookup smallPrimeList 1193 = primeLookup smallPrimeList 1200 ∧
+    primeLookup smallPrimeList 1192 ≠ primeLookup smallPrimeList 1193 := by decide +kernel
+
+/-- R16: a unit-modulus array that can be reference and observation at once (`[1, i]`) -/
+example : ∀ n, n < ([1, Complex.I] : List ℂ).length →
+    ([1, Complex.I] : List ℂ).getD n 0 * (starRingEnd ℂ) (([1, Complex.I] : List ℂ).getD n 0) = 1 := by
+  intro n hn
+  have : n = 0 ∨ n = 1 := by simp at hn; omega
+  rcases this with rfl | rfl <;> simp
+
+/-- R16: a history with two refills and three calls, and its snapshots -/
+example : callSnapshots (β := ℕ) (κ := ℕ) 1 [.call 7, .refill 2, .call 7, .call 8]
+    = [(1, 7), (2, 7), (2, 8)] := rfl
 
 end PyPhysim.C18
